@@ -83,6 +83,8 @@ class State:
         s.spec_env = self.spec_env
         s.class_scope = self.class_scope
         s.written_cells = self.written_cells
+        if getattr(self, "now_state", None) is not None:
+            s.now_state = self.now_state
         return s
 
     # ------------------------------------------------------------ heap
